@@ -240,6 +240,9 @@ func (s *streamPacketCipher) writeCipherPacket(seqNum uint32, w io.Writer, rand 
 	}
 
 	length := len(packet) + 1 + paddingLength
+	if length > maxPacket {
+		return errors.New("ssh: packet too large")
+	}
 	binary.BigEndian.PutUint32(s.prefix[:], uint32(length))
 	s.prefix[4] = byte(paddingLength)
 	padding := s.padding[:paddingLength]
@@ -336,6 +339,9 @@ func (c *gcmCipher) writeCipherPacket(seqNum uint32, w io.Writer, rand io.Reader
 		padding += packetSizeMultiple
 	}
 
+	if len(packet)+int(padding)+1 > maxPacket {
+		return errors.New("ssh: packet too large")
+	}
 	length := uint32(len(packet) + int(padding) + 1)
 	binary.BigEndian.PutUint32(c.prefix[:], length)
 	if _, err := w.Write(c.prefix[:]); err != nil {
@@ -582,6 +588,9 @@ func (c *cbcCipher) readCipherPacketLeaky(seqNum uint32, r io.Reader) ([]byte, e
 }
 
 func (c *cbcCipher) writeCipherPacket(seqNum uint32, w io.Writer, rand io.Reader, packet []byte) error {
+	if len(packet) > maxPacket {
+		return errors.New("ssh: packet too large")
+	}
 	effectiveBlockSize := maxUInt32(cbcMinPacketSizeMultiple, c.encrypter.BlockSize())
 
 	// Length of encrypted portion of the packet (header, payload, padding).
@@ -591,6 +600,9 @@ func (c *cbcCipher) writeCipherPacket(seqNum uint32, w io.Writer, rand io.Reader
 	encLength = (encLength + effectiveBlockSize - 1) / effectiveBlockSize * effectiveBlockSize
 
 	length := encLength - 4
+	if length > maxPacket {
+		return errors.New("ssh: packet too large")
+	}
 	paddingLength := int(length) - (1 + len(packet))
 
 	// Overall buffer contains: header, payload, padding, mac.
@@ -752,6 +764,10 @@ func (c *chacha20Poly1305Cipher) writeCipherPacket(seqNum uint32, w io.Writer, r
 	padding := packetSizeMultiple - (1+len(payload))%packetSizeMultiple
 	if padding < 4 {
 		padding += packetSizeMultiple
+	}
+
+	if 1+len(payload)+padding > maxPacket {
+		return errors.New("ssh: packet too large")
 	}
 
 	// size (4 bytes), padding (1), payload, padding, tag.
